@@ -20,6 +20,14 @@ CHECKS = {
         "This covers the 21 methods without any test. It decides the parameters and hook tables, not the full behaviour of the special-case rules.",
    note="Trusted: sv/tables/bundesbank.py (typed from the Bundesbank descriptions), the abstract evaluator's library model. Special rules of 13/63, 24, 25, 68, 76 beyond parameters are not decided.",
    design="3/C07"),
+ "C06": dict(
+   technique="decorator evaluation (exhaustive registration table) + abstract evaluation per country + reference-implementation agreement on a position-covering probe family",
+   text="The 22 countries' registrations are derived by evaluating every register() decorator; for each country the fields read, the width of the computed digits and the possible "
+        "outcomes of the BBAN-level check (True / InvalidBBANChecksum only) are decided by abstract evaluation over all structure-conforming BBANs; the algorithms' results are compared with "
+        "independent reference implementations on a probe family that varies every accepted position over its whole character class. "
+        "Parameters (weights, moduli, letter maps, special results) are thereby pinned for all 22 countries, 17 of which have no test.",
+   note="Trusted: sv/tables/national.py; the probe family is finite - a special case keyed on several positions at once is not decided (stated in evidence). R06-mono/R06-flag live in the validator analysis.",
+   design="3/C06"),
 }
 NA_REASON = "check not built yet (work in progress; see DESIGN.md section 3 for the plan)"
 
